@@ -141,23 +141,35 @@ func vfC12core(c *hx.Ctx) {
 		wnd    int
 		nd     [4]int
 		w      []int
+		from   int // faults start at this datagram (warmed-up connection with an open congestion window); 0 = from the start
+	}
+	long := make([]int, 90)
+	for i := range long {
+		long[i] = 16
 	}
 	cfgs := []cf{
-		{"session", true, 4, [4]int{1, 10, 2, 1}, []int{16, 16, 16, 16, 16, 16}},
-		{"session", false, 32, [4]int{0, 40, 2, 0}, []int{16, 1, 16, 16, 5}},
-		{"update", true, 2, [4]int{0, 100, 0, 0}, []int{48, 16}},
-		{"update", false, 8, [4]int{1, 20, 2, 1}, []int{40, 16, 16}},
-		{"session", true, 1, [4]int{1, 20, 0, 0}, []int{16, 16, 16}},
-		{"update", true, 32, [4]int{0, 40, 2, 0}, []int{16, 16, 16, 16, 16, 16, 16, 16}},
+		// congestion control on, fast retransmit on, twenty and more segments in flight when the loss is repaired: the
+		// congestion response (ssthresh from the in-flight count) must not depend on where the window lies
+		{"session", true, 32, [4]int{0, 10, 2, 0}, long, 24},
+		{"update", true, 64, [4]int{0, 20, 2, 0}, long, 44},
+		{"session", true, 4, [4]int{1, 10, 2, 1}, []int{16, 16, 16, 16, 16, 16}, 0},
+		{"session", false, 32, [4]int{0, 40, 2, 0}, []int{16, 1, 16, 16, 5}, 0},
+		{"update", true, 2, [4]int{0, 100, 0, 0}, []int{48, 16}, 0},
+		{"update", false, 8, [4]int{1, 20, 2, 1}, []int{40, 16, 16}, 0},
+		{"session", true, 1, [4]int{1, 20, 0, 0}, []int{16, 16, 16}, 0},
+		{"update", true, 32, [4]int{0, 40, 2, 0}, []int{16, 16, 16, 16, 16, 16, 16, 16}, 0},
 	}
 	if c.Quick() {
-		cfgs = cfgs[:4]
+		cfgs = cfgs[:6]
 	}
 	left := time.Until(c.Deadline)
 	per := (len(cfgs) + max(c.Of, 1) - 1) / max(c.Of, 1)
 	for _, x := range cfgs {
 		sc := vfSimCfg{Mode: x.mode, Stream: x.stream, SndWnd: [2]int{x.wnd, x.wnd}, RcvWnd: [2]int{x.wnd, x.wnd}, Mtu: 40, NoDelay: x.nd,
 			Delay: 10, K: K, Fates: vfAllFates, HorizonMs: 600000, PauseAfter: -1}
+		if x.from > 0 {
+			sc.FateFrom, sc.K, sc.Fates = x.from, 3, []int{vfDeliver, vfDrop}
+		}
 		sc.Writes[0] = x.w
 		sc.Writes[1] = x.w[:1]
 		nseg := 0
@@ -170,7 +182,7 @@ func vfC12core(c *hx.Ctx) {
 		p["offsets"] = "sn0: 2^31 and 2^32 boundary at every segment index; clock0: at every stride of the run"
 		c.ByUnit = false
 		before := vfC12Sims
-		if u := c.Explore(fmt.Sprintf("shift/%s/stream=%v/wnd=%d/nodelay=%v/writes=%v", x.mode, x.stream, x.wnd, x.nd, x.w), p, 0, vfC12Run(sc, nseg, stride)); u != nil {
+		if u := c.Explore(fmt.Sprintf("shift/%s/stream=%v/wnd=%d/nodelay=%v/writes=%dx%v/faults-from=%d", x.mode, x.stream, x.wnd, x.nd, len(x.w), x.w[:min(len(x.w), 8)], x.from), p, 0, vfC12Run(sc, nseg, stride)); u != nil {
 			u.Notes = append(u.Notes, fmt.Sprintf("this shard ran %d simulations (base + shifted) for this unit", vfC12Sims-before))
 		}
 	}
@@ -212,7 +224,7 @@ func vfC12fec(c *hx.Ctx) {
 		d, p := dp[0], dp[1]
 		size := uint32(d + p)
 		paws := uint32(0xffffffff) / size * size
-		const ngroups = 6
+		const ngroups = 9
 		for back := uint32(0); back <= 4; back++ {
 			for gap := -1; gap < ngroups*d; gap++ {
 				u.Executions++
@@ -226,8 +238,8 @@ func vfC12fec(c *hx.Ctx) {
 				// a decoder that has followed the stream so far
 				dec := newFECDecoder(d, p)
 				dec.newestShardId, dec.hasNewest = ((paws-back*size)%paws)/size, true
-				var last uint32
-				have := false
+				var last, lastFed uint32
+				have, fedAny := false, false
 				where := fmt.Sprintf("%d/%d encoder starting %d groups before the wrap, idle gap before data packet %d", d, p, back, gap)
 				for j := 0; j < ngroups*d; j++ {
 					if j == gap {
@@ -261,6 +273,7 @@ func vfC12fec(c *hx.Ctx) {
 					// the receiver loses the first data packet of every group and must get it back whenever parity was sent
 					groupStart := j%d == 0
 					if !groupStart {
+						lastFed, fedAny = fecPacket(b).seqid(), true
 						for _, r := range dec.decode(fecPacket(b)) {
 							defaultBufferPool.Put(r)
 						}
@@ -268,6 +281,7 @@ func vfC12fec(c *hx.Ctx) {
 					if len(ps) > 0 {
 						recovered := 0
 						for _, x := range ps {
+							lastFed, fedAny = fecPacket(x).seqid(), true
 							for _, r := range dec.decode(fecPacket(append([]byte(nil), x...))) {
 								recovered++
 								defaultBufferPool.Put(r)
@@ -280,6 +294,14 @@ func vfC12fec(c *hx.Ctx) {
 					if dec.shouldTune {
 						viol("C12:fec-wrap-triggers-tuning", fmt.Sprintf("%s: genuine packets around the wrap made the decoder suspend decoding", where))
 						dec.shouldTune = false
+					}
+					// the decoder's window must follow the stream across the wrap exactly as anywhere else: its reference is the
+					// group of the packet just fed, and it holds no more than the few most recent groups
+					if g := lastFed / size; fedAny && dec.hasNewest && dec.newestShardId != g {
+						viol("C12:fec-decoder-window-does-not-follow-the-wrap", fmt.Sprintf("%s: after the packet with id %d (group %d) the decoder's newest group is %d", where, lastFed, g, dec.newestShardId))
+					}
+					if len(dec.shardSet) > maxShardSets+1 {
+						viol("C12:fec-decoder-keeps-old-groups-after-the-wrap", fmt.Sprintf("%s: the decoder holds %d groups after id %d (it keeps the %d most recent elsewhere)", where, len(dec.shardSet), last, maxShardSets+1))
 					}
 				}
 			}
